@@ -100,6 +100,55 @@ pub fn queued_scenario(per_pool: bool) -> Scenario {
     }
 }
 
+/// Like `queued_scenario` with two queued clients, replies delivered one by one (so that a statement is
+/// genuinely running) and a second PAUSE right after the RESUME: the client that is still queued behind the
+/// running statement when the second PAUSE arrives must not start either.
+pub fn queued_twice_scenario(per_pool: bool) -> Scenario {
+    use crate::world::Cond;
+    let mut cfg = Cfg::one(PoolCfg::simple("db", "transaction", 1, 1, 0));
+    let mut p2 = PoolCfg::simple("db2", "transaction", 1, 1, 0);
+    p2.shards[0].servers[0].0 = "pg-other".into();
+    cfg.pools.push(p2);
+    let mut servers = cfg.servers();
+    for sv in servers.iter_mut() {
+        if sv.addr.starts_with("pg-s0") {
+            sv.gate = crate::mockpg::Gate::PerReply;
+        }
+    }
+    let scope = |a: &str| if per_pool { format!("{} db,alice", a) } else { a.to_string() };
+    let c0 = Script::new("c0")
+        .connect("alice", "db", Some("alicepw"))
+        .q(&format!("BEGIN /*{}*/", tag(0, 0, 0)))
+        .q(&format!("SELECT 1 /*{}*/", tag(0, 0, 1)))
+        .wait(Cond::ActorAt(4, 3))
+        .q(&format!("COMMIT /*{}*/", tag(0, 0, 2)))
+        .terminate();
+    let queued = |c: usize| Script::new(&format!("c{}", c)).connect("alice", "db", Some("alicepw")).wait(Cond::ActorAt(0, 5)).q(&format!("SELECT 1 /*{}*/", tag(c, 0, 0))).terminate();
+    let other = client(3, "db2", "autos");
+    let admin = env(
+        "admin",
+        vec![
+            Step::Wait(Cond::ActorAt(1, 3)),
+            Step::Wait(Cond::ActorAt(2, 3)),
+            Step::Admin(scope("PAUSE")),
+            Step::Wait(Cond::ActorsDone(vec![0])),
+            Step::Admin(scope("RESUME")),
+            Step::Admin(scope("PAUSE")),
+            Step::Wait(Cond::TimeMs(1)),
+            Step::Admin(scope("RESUME")),
+        ],
+    );
+    Scenario {
+        name: format!("C16 pool_size=1 progs=holder+queued+queued admin=PAUSE;RESUME;PAUSE;RESUME scope={}", if per_pool { "pool" } else { "global" }),
+        toml: cfg.toml(),
+        alt_tomls: vec![],
+        servers,
+        actors: vec![c0.actor(), queued(1).actor(), queued(2).actor(), other.actor(), admin],
+        opts: Opts::default(),
+        meta: serde_json::json!({"nclients": 3, "per_pool": per_pool}),
+    }
+}
+
 pub fn oracle(sc: &Scenario, out: &Outcome) -> Vec<Violation> {
     let log = &out.log;
     let mut vs = Vec::new();
@@ -219,6 +268,8 @@ pub fn build(tier: &str) -> SimCheck {
     }
     scenarios.push(queued_scenario(false));
     scenarios.push(queued_scenario(true));
+    scenarios.push(queued_twice_scenario(false));
+    scenarios.push(queued_twice_scenario(true));
     SimCheck {
         scenarios,
         oracle: Box::new(oracle),
